@@ -30,9 +30,12 @@ func (s *Store) maxSizeEnforcer(maxSize int64) {
 				el := all.Front()
 				all.Remove(el)
 				m := el.Value.(*Message)
-				if s.removeMessage(m.mailbox, m.id) != nil {
-					curSize -= int64(m.Size())
-				}
+				// The message leaves the accounting here, whether this eviction takes it out of
+				// its mailbox or a concurrent removal already has (that removal will find
+				// m.el == nil below and subtract nothing).
+				m.el = nil
+				curSize -= int64(m.Size())
+				s.removeMessage(m.mailbox, m.id)
 			}
 			close(md.done)
 		case md, ok := <-s.remove:
